@@ -20,3 +20,4 @@ def rules(ctx):
     S.c06_r5_tracking(ctx)
     S.c06_r6_restore(ctx)
     S.walker_rules(ctx)
+    S.refcount_rules(ctx)
